@@ -124,6 +124,14 @@ mut("C20", "cofactor-sign", "matrix/matrix3.go", "\t\t\t-(m[0][1]*m[2][2] - m[2]
 mut("C20", "mulm-no-transpose", "matrix/matrix3.go", "\tt := m.Transpose()\n", "\tt := m\n")
 mut("C20", "mulv-swapped-entries", "matrix/matrix3.go", "m[0][1]*v[0] + m[1][1]*v[1] + m[2][1]*v[2],", "m[1][0]*v[0] + m[1][1]*v[1] + m[2][1]*v[2],")
 mut("C20", "scale-by-s0-thrice", "ciexyz/ciexyz.go", "\t\tm[1].MulS(s[1]),", "\t\tm[1].MulS(s[0]),")
+# ---- witnesses for rules added after the seeded rounds
+mut("C05", "load-filters-result", "meta/jpegmeta/jpegmeta.go", "\tmd, err = extractMetadata(bufio.NewReader(tee))\n", "\tmd, err = extractMetadata(bufio.NewReader(tee))\n\tif md != nil && md.PixelWidth > 1<<24 {\n\t\tmd = nil\n\t}\n", "C05.load: the loader re-judges what the parser returned")
+mut("C05", "jpeg-gives-up-on-bad-icc", "meta/jpegmeta/jpegmeta.go", "\t\t\t\tmd.SetICCProfileError(fmt.Errorf(\"inconsistent ICC profile chunk count\"))\n\t\t\t\tcontinue", "\t\t\t\tmd.SetICCProfileError(fmt.Errorf(\"inconsistent ICC profile chunk count\"))\n\t\t\t\tbreak parseSegments", "C05.dispatch jpeg scan reaches SOF")
+mut("C06", "png-staging-prefilled", "meta/pngmeta/pngmeta.go", "\t\t\tchunkData := &bytes.Buffer{}", "\t\t\tchunkData := bytes.NewBufferString(profileName.String())", "C06 staging buffers start empty")
+mut("C17", "text-length-limit", "meta/icc/textdescription.go", "\tif asciiCount == 0 {\n\t\treturn desc, nil\n\t}", "\tif asciiCount == 0 {\n\t\treturn desc, nil\n\t}\n\tif asciiCount > 256 {\n\t\treturn desc, io.ErrUnexpectedEOF\n\t}", "C17.text complete: a well-formed tag is rejected")
+mut("C01", "once-shared-by-two-builders", "prophotorgb/lut.go", "\tinitFrom16BitLUTOnce.Do(func() {", "\tinitTo16BitLUTOnce.Do(func() {", "one Once, one initialiser")
+mut("C15", "one-worker-fewer", "prism.go", "\t\toutputImg := image.NewNRGBA(inputImg.Rect)\n\n\t\tparallel.RunWorkers(parallelism, func", "\t\toutputImg := image.NewNRGBA(inputImg.Rect)\n\n\t\tparallel.RunWorkers(parallelism-1, func", "worker count must be >= 1 whenever parallelism is")
+mut("C10", "half-the-workers", "linear/linear.go", "\t\t\tparallel.RunWorkers(parallelism, func(workerNum, workerCount int) {\n\t\t\t\tfor i := bounds.Min.Y + workerNum; i < bounds.Max.Y; i += workerCount {\n\t\t\t\t\tfor j := bounds.Min.X; j < bounds.Max.X; j++ {\n\t\t\t\t\t\tc := transformColor(srcImg.RGBA64At(j, i))", "\t\t\tparallel.RunWorkers(parallelism/2, func(workerNum, workerCount int) {\n\t\t\t\tfor i := bounds.Min.Y + workerNum; i < bounds.Max.Y; i += workerCount {\n\t\t\t\t\tfor j := bounds.Min.X; j < bounds.Max.X; j++ {\n\t\t\t\t\t\tc := transformColor(srcImg.RGBA64At(j, i))", "worker count must be >= 1 whenever parallelism is")
 
 def sh(cmd, cwd):
     p = subprocess.run(cmd, shell=True, cwd=cwd, env=ENV, stdout=subprocess.PIPE, stderr=subprocess.STDOUT, text=True)
